@@ -36,7 +36,7 @@ def components(t: T, out: Optional[Set[T]] = None, vfg=None) -> Set[T]:
         components(t.args[0], out, vfg)
     if t.kind == "batched":
         components(t.args[0], out, vfg)  # per-element view of a mapped result
-    if vfg is not None and t.kind in ("choice", "phi", "batched", "elem", "loop"):
+    if vfg is not None and t.kind in ("choice", "phi", "batched", "elem", "loop", "update", "copy"):
         ci = vfg.typeof(t)
         if ci is not None and vfg.tree.is_record(ci):
             for f in vfg.tree.fields(ci):
